@@ -5,6 +5,7 @@ import (
 	"net"
 	"os"
 	"runtime/debug"
+	"sync"
 	"syscall"
 	"time"
 )
@@ -152,6 +153,36 @@ func runC09(o Opts) error {
 					break
 				}
 			}
+		}
+		// discovery queued behind another call on a fixed bind port: it is served in its turn and then collects replies for
+		// the whole timeout (six controllers answer 0..75 ms after its request) - it neither gives up early nor overruns
+		for attempt := 0; attempt < 2; attempt++ {
+			nextIndex++
+			idx := nextIndex
+			farm.Plan(idx, Behaviour{NoReply: true})
+			silent := uint32(800000077)
+			u := farmClient(farm, fixedPort, T, []uint32{silent}, nil)
+			var wg sync.WaitGroup
+			wg.Add(1)
+			t0 := time.Now()
+			go func() { defer wg.Done(); u.GetEvent(silent, idx) }()
+			time.Sleep(60 * time.Millisecond)
+			st := time.Now()
+			devs, derr := u.GetDevices()
+			dur := time.Since(st)
+			wg.Wait()
+			calls += 2
+			queued := T - st.Sub(t0) // time it had to wait for the port
+			js := map[string]any{"op": "queued-discovery", "fault": "queued-discovery", "path": "broadcast", "devices": len(devs), "dur_ms": ms(dur), "waited_ms": ms(queued)}
+			ok := derr == nil && len(devs) == 6 && dur >= queued+T-40*time.Millisecond && dur <= queued+T+150*time.Millisecond
+			if ok || attempt == 1 {
+				if !ok {
+					s.Fail(js, fmt.Sprintf("discovery queued behind another call on the fixed bind port returned %d of 6 controllers after %d ms (waited about %d ms for the port, timeout %d ms): %v", len(devs), ms(dur), ms(queued), ms(T), derr))
+				}
+				s.Extra["queued_discovery"] = js
+				break
+			}
+			time.Sleep(T)
 		}
 		// a batch of mixed concurrent calls, then the accounting
 		specs, udpIDs, tcpIDs := genScenario(r, farm, 6, false)
